@@ -23,7 +23,7 @@ func (fr *Frame) hintUnavailable(i int, h Hint, b *ssa.BasicBlock, st *State, g 
 	if label == "" {
 		label = fmt.Sprint(i)
 	}
-	if imp, ok := h.Clause.E.(*EBinary); ok && imp.Op == "==>" {
+	if imp, ok := h.Clause.E.(*EBinary); ok && imp.Op == "==>" && mentionsResult(imp.X, fr.namedResults()) {
 		env := fr.specEnv(st, fr.entry)
 		if res != nil {
 			fr.bindResults(env, res)
